@@ -9,6 +9,9 @@ pub struct OracleTable {
     entries: BTreeMap<String, Sexp>,
     pub rx_asked: usize,
     pub rp_asked: usize,
+    /// regexes of each `scan` statement of the file under test: lets the harness answer, together with
+    /// one question, the questions the same scan will ask next (fewer round trips; never changes an answer)
+    pub arm_sets: Vec<Vec<String>>,
 }
 
 impl OracleTable {
@@ -45,6 +48,12 @@ impl OracleTable {
         }
     }
 
+    fn add_rx(&mut self, p: &str, s: &str, i: usize) {
+        let res = Self::regex_at(p, s, i);
+        let entry = sexp::tagged("rx", vec![sexp::st(p), sexp::st(s), sexp::nat(i), res]);
+        self.entries.insert(entry.to_text(), entry);
+    }
+
     pub fn replace_all(pattern: &str, text: &str, repl: &str) -> Sexp {
         match Regex::new(pattern) {
             Err(_) => sexp::tagged("invalid", vec![]),
@@ -60,12 +69,39 @@ impl OracleTable {
         };
         match l[1].as_atom() {
             Some("rx") if l.len() == 5 => {
-                let (p, s) = (l[2].as_str().unwrap(), l[3].as_str().unwrap());
+                let (p, s) = (l[2].as_str().unwrap().to_string(), l[3].as_str().unwrap().to_string());
                 let i: usize = l[4].as_atom().unwrap().parse().unwrap();
-                let res = Self::regex_at(p, s, i);
-                let entry = sexp::tagged("rx", vec![l[2].clone(), l[3].clone(), l[4].clone(), res]);
-                self.entries.insert(entry.to_text(), entry);
+                self.add_rx(&p, &s, i);
                 self.rx_asked += 1;
+                // look ahead along every scan that uses this regex
+                let sets: Vec<Vec<String>> = self.arm_sets.iter().filter(|a| a.contains(&p)).cloned().collect();
+                for arms in sets {
+                    let mut j = i;
+                    for _ in 0..400 {
+                        if j >= s.len() || !s.is_char_boundary(j) {
+                            break;
+                        }
+                        let mut best: Option<(usize, usize)> = None; // (start, end)
+                        let mut empty = false;
+                        for a in &arms {
+                            self.add_rx(a, &s, j);
+                            if let Ok(re) = Regex::new(a) {
+                                if let Some(m) = re.find(&s[j..]) {
+                                    if m.start() == m.end() {
+                                        empty = true;
+                                    }
+                                    if best.map_or(true, |b| m.start() < b.0) {
+                                        best = Some((m.start(), m.end()));
+                                    }
+                                }
+                            }
+                        }
+                        match best {
+                            Some((_, end)) if !empty && end > 0 => j += end,
+                            _ => break,
+                        }
+                    }
+                }
                 true
             }
             Some("rp") if l.len() == 5 => {
